@@ -15,7 +15,7 @@ From PV Require Import Base.PdfObj.
 From PV Require Import Model.Flate Model.Filters Model.TypeCheck Model.ShippedEntry Model.Dom Model.ContentLex Model.Pipeline.
 From PV Require Import Proofs.Pipeline Proofs.PipelineTop.
 From PV Require Import Model.Full.
-From PV Require Model.Loader.
+From PV Require Model.Loader Model.LoaderBytes.
 
 (* no panic site of any stage is reachable, for EVERY object context (hostile parameters, reference cycles,
    absurd sizes included); the side condition is needed only by debug builds: a page whose decoded content
@@ -74,6 +74,18 @@ Theorem C01_full_two_outcomes : forall rel toks p,
   full rel toks p = PAccepted \/ full rel toks p = PRejected.
 Proof. exact full_two_outcomes. Qed.
 
+(* ... and from BYTES: [full_bytes rel toks s] runs the loader model on the abstraction that the byte-level parser
+   models compute from the byte string s itself (Model/LoaderBytes.v; faithful for the classic layout:
+   C03_bytes_classic), then the pipeline.  For EVERY byte string: *)
+Theorem C01_bytes_two_outcomes : forall rel toks s,
+  (forall c root, Loader.load (Model.LoaderBytes.abstract_file rel s) = Loader.Loaded c root -> small_pages rel toks (objs_of c) root) ->
+  (forall d c, dec rel toks d c <> Fuel) ->
+  full_bytes rel toks s = PAccepted \/ full_bytes rel toks s = PRejected.
+Proof. exact full_bytes_two_outcomes. Qed.
+
+Theorem C01_bytes_no_panic_release : forall toks s, full_bytes true toks s <> PPanicked.
+Proof. exact full_bytes_no_panic_release. Qed.
+
 (* the hypotheses are satisfiable: a one-page document with an unfiltered content stream *)
 Definition ex_ctx : octx :=
   [((1, 0)%N, ODict [(B "Pages", ORef 2 0); (B "Type", OName (B "Catalog"))]);
@@ -102,6 +114,8 @@ Print Assumptions C01_panic_sources.
 Print Assumptions C01_root_missing_rejected.
 Print Assumptions C01_full_no_panic.
 Print Assumptions C01_full_two_outcomes.
+Print Assumptions C01_bytes_two_outcomes.
+Print Assumptions C01_bytes_no_panic_release.
 
 (* NOT covered by these theorems (DESIGN.md, C01): the loader in front of the pipeline (its model is
    Model/Loader.v at the level of parsed pieces: termination of the /Prev walk is C04_chain_terminates; the
